@@ -81,6 +81,7 @@ func (g G) text(label, marker string, hard bool) string {
 }
 
 type worldOpts struct {
+	bigUserPct int // users with one very large multi-valued attribute
 	maxSPs, maxUsers, maxReplicas int
 	hardPct                       int // probability (per world) that strings are drawn from the hard alphabet
 	hardURLPct                    int // … that SP URLs / entity IDs carry query strings and metacharacters
@@ -96,6 +97,7 @@ type worldOpts struct {
 	skewPct                       int
 	customAttrs                   bool
 	noCertPct                     int
+	expiredSPCertPct              int
 	nilUnknownPct                 int // storage flavour that answers (nil, nil) for an unknown entity
 }
 
@@ -187,6 +189,9 @@ func (g G) drawSP(i int, o worldOpts, hardURL bool) SPCfg {
 			c.Entity += q
 		}
 	}
+	if g.chance(fmt.Sprintf("sp%d.shortcert", i), o.expiredSPCertPct) {
+		c.Key = KeyShort // the registered certificate is valid during 2001 only: expired (or not yet valid) at almost every simulated instant
+	}
 	if g.chance(fmt.Sprintf("sp%d.nocert", i), o.noCertPct) {
 		c.HasCert = false
 	}
@@ -270,6 +275,9 @@ func (g G) drawUser(i int, o worldOpts, hard bool) UserCfg {
 	if g.chance(lab+"uid", 85) {
 		u.UID = g.text(lab+"uidv", "id-"+mk, hard)
 	}
+	if o.customAttrs && g.chance(lab+"big", o.bigUserPct) {
+		u.BigN = g.rng(lab+"bign", 150, 450)
+	}
 	if o.customAttrs {
 		n := g.intn(lab+"ncustom", 4)
 		for k := 0; k < n; k++ {
@@ -319,6 +327,8 @@ func (g G) drawWorld(o worldOpts) WorldCfg {
 		w.SharedSP = g.chance("sharedSP", 50)
 	}
 	w.NilUnknown = g.chance("nilUnknown", o.nilUnknownPct)
+	w.CtxAware = g.chance("ctxAware", 35)
+	w.TenantKeys = g.chance("tenantKeys", 35)
 	return w
 }
 
@@ -342,6 +352,7 @@ func (g G) drawStyle(label string) Style {
 	s.Optional = g.intn(label+".optional", 1<<11)
 	s.SelfClose = g.chance(label+".selfClose", 50)
 	s.EncodingP = g.intn(label+".encodingP", 2)
+	s.Chunked = g.chance(label+".chunked", 15)
 	return s
 }
 
